@@ -218,8 +218,11 @@ func (s *Sim) walkFrom(fr *frame, b *ssa.BasicBlock, prev *ssa.BasicBlock, t *Tr
 		case *ssa.Go:
 			s.callEvent(fr, t, x, true)
 		case *ssa.Call:
-			if s.InlineDeep != nil && s.depth < 3 {
-				if callee := x.Common().StaticCallee(); callee != nil && s.P.inRepo(callee) && len(callee.Blocks) > 0 && !s.Record[s.P.FuncName(callee)] && s.InlineDeep(callee) {
+			if s.depth < 3 {
+				// simulated in place: callees selected by the rule (InlineDeep) and
+				// helpers no rule knows by name (IsNew: extracted by a refactoring)
+				if callee := x.Common().StaticCallee(); callee != nil && s.P.inRepo(callee) && len(callee.Blocks) > 0 &&
+					(s.P.IsNew(callee) || s.InlineDeep != nil && !s.Record[s.P.FuncName(callee)] && s.InlineDeep(callee)) {
 					cfr := &frame{fn: callee, fi: s.P.Info(callee), regs: map[ssa.Value]string{}}
 					for i, prm := range callee.Params {
 						if i < len(x.Common().Args) {
@@ -492,7 +495,14 @@ func (s *Sim) val(fr *frame, t *Trace, v ssa.Value) string {
 			fr.regs[v] = r
 			return r
 		case token.NOT:
-			return "!" + s.val(fr, t, x.X)
+			switch inner := s.val(fr, t, x.X); inner {
+			case "true":
+				return "false"
+			case "false":
+				return "true"
+			default:
+				return "!" + inner
+			}
 		}
 		return "unop(" + s.val(fr, t, x.X) + ")"
 	case *ssa.BinOp:
